@@ -260,8 +260,15 @@ Mentions(t, g) ==
     [] t.k = "arr"  -> Mentions(t.of, g)
     [] OTHER -> FALSE
 
+\* `#[codec(compact)]` needs a type with a compact encoding: an unsigned primitive, (), a generated wrapper or a parameter -
+\* never a library container such as Box<..> or Vec<..>
+ItemFields(it) ==
+  IF it.kind = "struct" THEN it.fields
+  ELSE FlattenSeq([v \in DOMAIN it.variants |-> it.variants[v].fields])
+CompactAttrOK(f) == f.compact => ((f.ty.k = "path" /\ LibArity(f.ty) \in {-1, 0}) \/ (f.ty.k = "tup" /\ Len(f.ty.elems) = 0))
 ItemOK(Root, it) ==
   /\ Distinct(it.generics)
+  /\ \A i \in DOMAIN ItemFields(it) : CompactAttrOK(ItemFields(it)[i])
   /\ \A i \in DOMAIN ItemFieldTys(it) : TyResolves(Root, it.generics, ItemFieldTys(it)[i])
   /\ \A g \in DOMAIN it.generics : \E i \in DOMAIN ItemFieldTys(it) : Mentions(ItemFieldTys(it)[i], it.generics[g])
   /\ it.kind = "struct" => (it.semi <=> it.style \in {"unit", "unnamed"})
